@@ -67,11 +67,11 @@ parser! {
 
         // expression const
         pub rule e_const() -> Expr
-            = "$" n:$(['0'..='9' | 'A'..='F' | 'a'..='f']+) { Expr::Const(i64::from_str_radix(n, 16).unwrap()) }
-            / "0x" n:$(['0'..='9' | 'A'..='F' | 'a'..='f']+) { Expr::Const(i64::from_str_radix(n, 16).unwrap()) }
-            / "0b" n:$(['0'..='1']+) { Expr::Const(i64::from_str_radix(n, 2).unwrap()) }
-            / "0" n:$(['0'..='7']+) { Expr::Const(i64::from_str_radix(n, 8).unwrap()) }
-            / n:$(['0'..='9']+) { Expr::Const(n.parse().unwrap()) }
+            = "$" n:$(['0'..='9' | 'A'..='F' | 'a'..='f']+) {? i64::from_str_radix(n, 16).map(Expr::Const).or(Err("64-bit number")) }
+            / "0x" n:$(['0'..='9' | 'A'..='F' | 'a'..='f']+) {? i64::from_str_radix(n, 16).map(Expr::Const).or(Err("64-bit number")) }
+            / "0b" n:$(['0'..='1']+) {? i64::from_str_radix(n, 2).map(Expr::Const).or(Err("64-bit number")) }
+            / "0" n:$(['0'..='7']+) {? i64::from_str_radix(n, 8).map(Expr::Const).or(Err("64-bit number")) }
+            / n:$(['0'..='9']+) {? n.parse().map(Expr::Const).or(Err("64-bit number")) }
 
         // expression
         pub rule expr() -> Expr
